@@ -332,9 +332,13 @@ class WorkQueue:
     ) -> None:
         """Cancel a task with the streams produced by it."""
         computation = task.computation
+        pending_future = computation.pending_future
         abort_result = computation.abort(reason)
         if is_awaitable(abort_result):
             cancel_awaitables.append(abort_result)
+        if pending_future is not None:
+            # also wait until the cancelled computation has been unwound
+            cancel_awaitables.append(pending_future)
         task_node = self._task_nodes.get(task)
         if task_node:
             for child_stream in task_node.child_streams:
